@@ -20,6 +20,7 @@ modelled.  Core Lean only.
 import SpiceEv.Model.Strategies
 import SpiceEv.Model.Distributed
 import SpiceEv.Model.Battery
+import SpiceEv.Model.StratPeakShaving
 namespace SpiceEv.Distrib
 open SpiceEv
 
@@ -56,6 +57,15 @@ structure ArrivalEv (α : Type) where
   desiredSoc : Option α
   hasEtd : Bool
 
+/-- options of a sub-strategy object of class `PeakShaving` (spice_ev/strategies/peak_shaving.py) -/
+structure PSCfg where
+  /-- `self.HORIZON` (µs) -/
+  horizon : Int
+  /-- `self.perfect_foresight` -/
+  perfect : Bool
+  /-- bound on the iterations of each bisection of the peak-shaving model -/
+  fuel : Nat
+
 /-- a sub-strategy object (`self.strat_opps` / `self.strat_deps`): its class and the options `step` reads -/
 structure SubStrat (α : Type) where
   rule : Rule
@@ -63,6 +73,8 @@ structure SubStrat (α : Type) where
   priceThreshold : α
   tsPerHour : α
   interval : Int
+  /-- `some cfg`: the object is a `PeakShaving` (model: Model/StratPeakShaving.lean); `rule` is not read then -/
+  ps : Option PSCfg := none
 
 /-- battery operations: those of the rule-based strategies plus the two `Distributed` needs for the virtual vehicle -/
 structure DOps (α B : Type) where
@@ -71,6 +83,10 @@ structure DOps (α B : Type) where
   newBattery : VirtVT α → α → Py B
   /-- `battery.soc = …` -/
   setSoc : B → α → B
+  /-- `battery.loading_curve.max_power` (read by a peak-shaving sub-strategy) -/
+  loadMaxPower : B → α
+  /-- builtin `sum(list)` (read by a peak-shaving sub-strategy) -/
+  sum : List α → α
 
 /-- options and clock -/
 structure DEnv (α : Type) where
@@ -79,6 +95,9 @@ structure DEnv (α : Type) where
   hours : α
   opps : SubStrat α
   deps : SubStrat α
+  /-- `self.world_state.future_events` of this step, every class (the filtered copies handed to the sub-strategy
+  as `new_world_state.future_events` are read by a peak-shaving sub-strategy without perfect foresight) -/
+  future : List (PeakShaving.Ev α) := []
 
 def DEnv.sub {α : Type} (e : DEnv α) : Kind → SubStrat α
   | .deps => e.deps | .opps => e.opps
@@ -97,6 +116,10 @@ structure DInit (α : Type) where
   virtualVt : List (String × VirtVT α)
   /-- `self.virtual_cs` (id = `stationary_<b_id>`; `current_power` persists between steps) -/
   virtualCs : List (StationS α)
+  /-- `self.strat_opps.events` / `self.strat_deps.events` of a `PeakShaving` sub-strategy with perfect foresight
+  (built by its own `__init__` from its copy of the events, past events are popped by every `step_gc`); `[]` otherwise -/
+  oppsEvents : List (PeakShaving.Ev α) := []
+  depsEvents : List (PeakShaving.Ev α) := []
 
 structure DState (α B : Type) where
   world : SWorld α B
@@ -171,7 +194,7 @@ def initBattery (ops : BatOps α B) (curves : List (String × Curve α)) (strate
 def init (ops : BatOps α B) (curves : List (String × Curve α)) (w : SWorld α B) :
     Py (DInit α × List (String × List String)) := do
   let strategies ← initStrategies w.stations
-  let st ← w.batteries.foldlM (initBattery ops curves strategies) ⟨strategies, [], [], []⟩
+  let st ← w.batteries.foldlM (initBattery ops curves strategies) { strategies := strategies, gcBattery := [], virtualVt := [], virtualCs := [] }
   .ok (st, w.gcs.map (fun g => (g.id, [])))
 
 /-! ### `step`, block A: look-ahead -/
@@ -393,16 +416,17 @@ def mergeDeps (w vw' : SWorld α B) (stations : List (StationS α)) (cvs : List 
   let w := vw'.gcs.foldl (fun (w : SWorld α B) g => w.setGc g) w
   vw'.batteries.foldl (fun (w : SWorld α B) b => w.setBattery b) w
 
-/-- depot connector: run the sub-strategy on `new_world_state` -/
-def stepDeps (dops : DOps α B) (de : DEnv α) (w : SWorld α B) (ini : DInit α) (cmdsAcc : List (String × α))
+/-- depot connector, sub-strategy greedy / balanced: run it on `new_world_state` -/
+def stepDepsRule (dops : DOps α B) (de : DEnv α) (w : SWorld α B) (ini : DInit α) (cmdsAcc : List (String × α))
     (gc : GcS α) (stations : List (StationS α)) (cvs : List (VehicleS α B)) (batIds : List String) :
     Py (SWorld α B × DInit α × List (String × α)) := do
   let (vw', cmds) ← ruleStep de.deps.rule dops.bat (de.deps.env de.env.now)
     ⟨[gc], stations, cvs, depotBatteries w batIds⟩
   .ok (mergeDeps w vw' stations cvs, ini, sdUpdate cmdsAcc cmds)
 
-/-- opportunity station: battery support / virtual vehicles, sub-strategy, restore the limit, batteries -/
-def stepOpps (dops : DOps α B) (de : DEnv α) (lk : Look α) (w : SWorld α B) (ini : DInit α)
+/-- opportunity station, sub-strategy greedy / balanced: battery support / virtual vehicles, sub-strategy, restore
+the limit, batteries -/
+def stepOppsRule (dops : DOps α B) (de : DEnv α) (lk : Look α) (w : SWorld α B) (ini : DInit α)
     (cmdsAcc : List (String × α)) (gcId : String) (gc : GcS α) (stations : List (StationS α))
     (cvs : List (VehicleS α B)) (batIds : List String) :
     Py (SWorld α B × DInit α × List (String × α)) := do
@@ -422,6 +446,74 @@ def stepOpps (dops : DOps α B) (de : DEnv α) (lk : Look α) (w : SWorld α B) 
     let w := { (w.setGc post.gc) with batteries := post.bats }
     .ok (w, ini, sdUpdate cmdsAcc post.cmds)
   | _ => .error .exception
+
+/-! #### a `PeakShaving` object as sub-strategy -/
+
+def psOps (dops : DOps α B) : PeakShaving.Ops α B := ⟨dops.bat, dops.loadMaxPower, dops.setSoc, dops.sum⟩
+
+/-- `new_world_state.future_events`: deep copies of the connector's fixed-load / generation / operator events (list
+order), then per connected vehicle (dict order) its vehicle events -/
+def subFuture (future : List (PeakShaving.Ev α)) (gcId : String) (cvs : List (VehicleS α B)) :
+    List (PeakShaving.Ev α) :=
+  future.filter (fun e => match e with
+    | .gen _ g _ _ => g == gcId | .load _ g _ _ => g == gcId | .signal _ g _ => g == gcId | _ => false)
+  ++ cvs.flatMap (fun v => future.filter (fun e => match e with
+    | .departure _ vid => vid == v.id | .arrival _ vid _ _ _ _ => vid == v.id | _ => false))
+
+/-- `PeakShaving.step()` of the sub-strategy object on the virtual world ↦ (world', commands, its `self.events`
+afterwards: with perfect foresight `step_gc` pops the events that started) -/
+def psStep (dops : DOps α B) (sub : SubStrat α) (cfg : PSCfg) (now : Int)
+    (events future : List (PeakShaving.Ev α)) (vw : SWorld α B) :
+    Py (SWorld α B × List (String × α) × List (PeakShaving.Ev α)) := do
+  let env : PeakShaving.Env α := ⟨sub.eps, sub.tsPerHour, now, sub.interval, cfg.horizon, cfg.perfect, cfg.fuel⟩
+  let (vw', cmds, _) ← PeakShaving.step (psOps dops) env (if cfg.perfect then events else future) vw
+  .ok (vw', cmds, if cfg.perfect then events.dropWhile (fun e => decide (e.start ≤ now)) else events)
+
+/-- depot connector, sub-strategy peak_shaving -/
+def stepDepsPS (dops : DOps α B) (de : DEnv α) (cfg : PSCfg) (w : SWorld α B) (ini : DInit α)
+    (cmdsAcc : List (String × α)) (gc : GcS α) (stations : List (StationS α)) (cvs : List (VehicleS α B))
+    (batIds : List String) : Py (SWorld α B × DInit α × List (String × α)) := do
+  let (vw', cmds, evs') ← psStep dops de.deps cfg de.env.now ini.depsEvents (subFuture de.future gc.id cvs)
+    ⟨[gc], stations, cvs, depotBatteries w batIds⟩
+  .ok (mergeDeps w vw' stations cvs, { ini with depsEvents := evs' }, sdUpdate cmdsAcc cmds)
+
+/-- opportunity station, sub-strategy peak_shaving (same frame as `stepOppsRule`) -/
+def stepOppsPS (dops : DOps α B) (de : DEnv α) (cfg : PSCfg) (lk : Look α) (w : SWorld α B) (ini : DInit α)
+    (cmdsAcc : List (String × α)) (gcId : String) (gc : GcS α) (stations : List (StationS α))
+    (cvs : List (VehicleS α B)) (batIds : List String) :
+    Py (SWorld α B × DInit α × List (String × α)) := do
+  let saved := gc.curMax
+  let prep ← batIds.foldlM (oppsBattery dops de ini lk w (!cvs.isEmpty) gcId) ⟨gc, [], [], []⟩
+  let (vw', cmds, evs') ← psStep dops de.opps cfg de.env.now ini.oppsEvents (subFuture de.future gcId cvs)
+    ⟨[prep.gc], stations ++ prep.vcs, cvs ++ prep.vveh, []⟩
+  match vw'.gcs with
+  | [gc1] => do
+    let w := writeBack w vw' (stations.map (·.id)) (cvs.map (·.id))
+    let vids := prep.vcs.map (·.id)
+    let ini := { ini with virtualCs := ini.virtualCs.map (fun s =>
+      if vids.contains s.id then (vw'.stations.find? (·.id == s.id)).getD s else s), oppsEvents := evs' }
+    let vveh' := vw'.vehicles.filter (fun v => prep.vveh.any (fun x => x.id == v.id))
+    let post ← batIds.foldlM (oppsAfter dops saved prep.avail vveh') ⟨gc1, cmds, w.batteries⟩
+    let w := { (w.setGc post.gc) with batteries := post.bats }
+    .ok (w, ini, sdUpdate cmdsAcc post.cmds)
+  | _ => .error .exception
+
+/-- depot connector: `station_type, strat = self.strategies[gc_id]; … strat.step()` by the class of `strat` -/
+def stepDeps (dops : DOps α B) (de : DEnv α) (w : SWorld α B) (ini : DInit α) (cmdsAcc : List (String × α))
+    (gc : GcS α) (stations : List (StationS α)) (cvs : List (VehicleS α B)) (batIds : List String) :
+    Py (SWorld α B × DInit α × List (String × α)) :=
+  match de.deps.ps with
+  | none => stepDepsRule dops de w ini cmdsAcc gc stations cvs batIds
+  | some cfg => stepDepsPS dops de cfg w ini cmdsAcc gc stations cvs batIds
+
+/-- opportunity station, by the class of the sub-strategy -/
+def stepOpps (dops : DOps α B) (de : DEnv α) (lk : Look α) (w : SWorld α B) (ini : DInit α)
+    (cmdsAcc : List (String × α)) (gcId : String) (gc : GcS α) (stations : List (StationS α))
+    (cvs : List (VehicleS α B)) (batIds : List String) :
+    Py (SWorld α B × DInit α × List (String × α)) :=
+  match de.opps.ps with
+  | none => stepOppsRule dops de lk w ini cmdsAcc gcId gc stations cvs batIds
+  | some cfg => stepOppsPS dops de cfg lk w ini cmdsAcc gcId gc stations cvs batIds
 
 /-- body of `for gc_id, gc in self.world_state.grid_connectors.items()` (the charging loop) -/
 def stepGc (dops : DOps α B) (de : DEnv α) (numberCs : List (String × Option Int))
